@@ -36,6 +36,7 @@ type FuncContract struct {
 	Modifies    []Expr
 	ModAll      bool   // modifies *
 	ModExcept   []Expr // modifies * except ... (whole heaps that stay untouched)
+	Stable      []Expr // stable all(T.f), ...: assumed untouched by every callee of this function
 	HasModifies bool
 	NoPanic     bool
 	Overflow    bool
@@ -76,6 +77,7 @@ type GhostVar struct {
 	Name    string
 	T       TypeExpr
 	PkgPath string
+	Stable  bool
 }
 
 type Lemma struct {
@@ -121,7 +123,7 @@ var keywords = map[string]bool{
 	"func": true, "spec": true, "axiom": true, "ghost": true, "lemma": true, "package": true,
 	"requires": true, "ensures": true, "let": true, "modifies": true, "nopanic": true, "overflow": true,
 	"loop": true, "invariant": true, "decreases": true, "trusted": true, "props": true, "pure": true,
-	"purefn": true, "maypanic": true, "opt": true, "dispatch": true, "assume": true, "uses": true, "onalloc": true, "recvinv": true, "check": true, "defines": true,
+	"purefn": true, "maypanic": true, "opt": true, "dispatch": true, "assume": true, "uses": true, "onalloc": true, "recvinv": true, "check": true, "defines": true, "stable": true,
 }
 
 type rawItem struct {
@@ -262,6 +264,12 @@ func (cs *Contracts) LoadFile(path string, pkgPath string, external bool) {
 		case "ghost":
 			cur, curLoop, curLemma, curAxiom = nil, nil, nil, nil
 			f := strings.Fields(it.text)
+			stable := false
+			if len(f) >= 1 && f[0] == "stablevar" {
+				// a ghost variable that uncontracted callees are assumed to leave as they found it
+				stable = true
+				f[0] = "var"
+			}
 			if len(f) < 3 || f[0] != "var" {
 				fail(it, "expected 'ghost var name type'")
 				continue
@@ -273,7 +281,7 @@ func (cs *Contracts) LoadFile(path string, pkgPath string, external bool) {
 				continue
 			}
 			ps.toks = toks
-			cs.Ghosts[f[1]] = &GhostVar{Name: f[1], T: ps.typeExpr(), PkgPath: pkgPath}
+			cs.Ghosts[f[1]] = &GhostVar{Name: f[1], T: ps.typeExpr(), PkgPath: pkgPath, Stable: stable}
 		case "onalloc":
 			cur, curLoop, curLemma, curAxiom = nil, nil, nil, nil
 			j := strings.Index(it.text, ":")
@@ -342,6 +350,11 @@ func (cs *Contracts) LoadFile(path string, pkgPath string, external bool) {
 					fc.Items = append(fc.Items, Item{Kind: "recvinv", Name: strings.TrimSpace(txt[:j]), E: parse(it, txt[j+1:]), Src: txt, Line: it.line})
 				case "check":
 					fc.Items = append(fc.Items, Item{Kind: "check", Label: label, E: parse(it, txt), Src: txt, Line: it.line})
+				case "stable":
+					// heaps / ghost variables that nothing called from this function modifies (assumption, listed)
+					for _, part := range splitTop(txt) {
+						fc.Stable = append(fc.Stable, parse(it, part))
+					}
 				case "defines":
 					// a clause that defines ghost state: assumed by callers, not checked against the body
 					fc.Items = append(fc.Items, Item{Kind: "defines", Label: label, E: parse(it, txt), Src: txt, Line: it.line})
